@@ -355,6 +355,11 @@ pub fn line_dump<'a>(dwarf: &gimli::Dwarf<Rdr<'a>>, unit: &gimli::Unit<Rdr<'a>>)
 
 /// Dump the whole .debug_info forest with attribute meanings.
 pub fn dwarf_dump<'a>(dwarf: &gimli::Dwarf<Rdr<'a>>) -> Result<DwarfDump, String> {
+    dwarf_dump_with(dwarf, &|_| {})
+}
+
+/// `prepare` is applied to every unit right after `Dwarf::unit` (split units: copy the skeleton's relocated attributes).
+pub fn dwarf_dump_with<'a>(dwarf: &gimli::Dwarf<Rdr<'a>>, prepare: &dyn Fn(&mut gimli::Unit<Rdr<'a>>)) -> Result<DwarfDump, String> {
     // pass 1: identity of every entry by section offset
     let mut by_sec: std::collections::BTreeMap<usize, String> = std::collections::BTreeMap::new();
     let mut units = Vec::new();
@@ -362,7 +367,8 @@ pub fn dwarf_dump<'a>(dwarf: &gimli::Dwarf<Rdr<'a>>) -> Result<DwarfDump, String
     loop {
         match it.next() {
             Ok(Some(h)) => {
-                let unit = dwarf.unit(h).map_err(|e| format!("unit:{}", errname(&e)))?;
+                let mut unit = dwarf.unit(h).map_err(|e| format!("unit:{}", errname(&e)))?;
+                prepare(&mut unit);
                 units.push(unit);
             }
             Ok(None) => break,
